@@ -16,6 +16,7 @@
 #include <iterator>
 #include <list>
 #include <memory>
+#include <utility>
 #include <string>
 #include <tuple>
 #include <vector>
@@ -84,13 +85,14 @@ namespace c14
         K_EMPLACE_BACK_RVALUE_ELEM, // emplace_back(T(v))
         K_EMPLACE_BACK_LVALUE_ELEM, // T t(v); emplace_back(t)
         K_CTOR_RANGE_MOVE_ITER,     // static_vector(std::make_move_iterator(first), std::make_move_iterator(last))
-        K_CTOR_RANGE_INPUT_ITER     // static_vector(single-pass input iterator pair), see single_pass.hpp
+        K_CTOR_RANGE_INPUT_ITER,    // static_vector(single-pass input iterator pair), see single_pass.hpp
+        K_CTOR_IL_NAMED             // from a NAMED initializer_list that is inspected afterwards: it must be unchanged
     };
     inline const char *kname(int k)
     {
         static const char *n[] = {"push_back", "emplace_back", "erase_range", "resize", "clear", "copy_assign", "self_assign", "move_assign",
                                   "default_ctor", "copy_ctor", "move_ctor", "ctor_range_pointer", "ctor_range_list_iterator", "ctor_initlist",
-                                  "push_back_rvalue", "push_back_moved", "emplace_back_rvalue_element", "emplace_back_lvalue_element", "ctor_range_move_iterator", "ctor_range_input_iterator"};
+                                  "push_back_rvalue", "push_back_moved", "emplace_back_rvalue_element", "emplace_back_lvalue_element", "ctor_range_move_iterator", "ctor_range_input_iterator", "ctor_initlist_named"};
         return n[k];
     }
 
@@ -197,6 +199,17 @@ namespace c14
                         if (cyc || N <= 2)
                             ops.push_back({K_CTOR_RANGE_INPUT_ITER, x, i, 0});
                     }
+            for (int x = 0; x < 2; x++) // appended later still
+                if (Tr::has_il)
+                    for (int i = 0; i < (int)lists.size(); i++)
+                    {
+                        bool cyc = true;
+                        for (size_t j = 1; j < lists[i].size(); j++)
+                            if (lists[i][j] != (lists[i][j - 1] + 1) % NV)
+                                cyc = false;
+                        if ((cyc || N <= 2) && !lists[i].empty())
+                            ops.push_back({K_CTOR_IL_NAMED, x, i, 0});
+                    }
             t->names.resize(ops.size());
             return t;
         }
@@ -266,6 +279,7 @@ namespace c14
             case K_CTOR_IL:
             case K_CTOR_RANGE_MOVE_ITER:
             case K_CTOR_RANGE_INPUT_ITER:
+            case K_CTOR_IL_NAMED:
                 return mc::fmt("%s.~static_vector(); new(%s) static_vector<N=%zu> %s %s", X, X, N, kname(p.kind), vstr(lists[p.a]).c_str());
             }
             return "?";
@@ -341,6 +355,28 @@ namespace c14
             mc::harness_error("construct_il: length %zu", v.size());
         }
 
+        // construct from a named list and look at the list afterwards: the caller's elements are const
+        template <size_t... I> bool construct_named_il(void *at, const std::vector<int> &v, std::index_sequence<I...>)
+        {
+            if constexpr (Tr::has_il)
+            {
+                const std::initializer_list<T> il = {T(v[I])...};
+                new (at) Vec(il);
+                size_t k = 0;
+                for (const T &e : il)
+                {
+                    bool alive = !tracked || reg.state(std::addressof(e)) == trk::ALIVE;
+                    if (!alive || value_of(e) != v[k])
+                    {
+                        bad("ctor_initlist_named", "source_list_modified", mc::fmt("element %zu of the caller's initializer_list is %s with value %d after the construction, it was %d", k,
+                                                                                  alive ? "alive" : "moved-from", value_of(e), v[k]));
+                        return false;
+                    }
+                    k++;
+                }
+            }
+            return true;
+        }
         bool apply(int o) override
         {
             fflush(nullptr); // engine records on disk before code that may abort the worker runs
@@ -525,6 +561,49 @@ namespace c14
                     construct_il(blk[p.x].ptr(), l);
                     blk[p.x].constructed = true;
                     mx = clip(l);
+                    break;
+                }
+                return false;
+            case K_CTOR_IL_NAMED:
+                if constexpr (Tr::has_il)
+                {
+                    const auto &l = lists[p.a];
+                    if (l.size() > N)
+                        mc::nontrivial();
+                    destroy(p.x);
+                    ctx(kname(p.kind), l.size() > N ? "longer_than_capacity" : "fits");
+                    bool ok = true;
+                    switch (l.size())
+                    {
+                    case 1:
+                        ok = construct_named_il(blk[p.x].ptr(), l, std::make_index_sequence<1>());
+                        break;
+                    case 2:
+                        ok = construct_named_il(blk[p.x].ptr(), l, std::make_index_sequence<2>());
+                        break;
+                    case 3:
+                        ok = construct_named_il(blk[p.x].ptr(), l, std::make_index_sequence<3>());
+                        break;
+                    case 4:
+                        ok = construct_named_il(blk[p.x].ptr(), l, std::make_index_sequence<4>());
+                        break;
+                    case 5:
+                        ok = construct_named_il(blk[p.x].ptr(), l, std::make_index_sequence<5>());
+                        break;
+                    case 6:
+                        ok = construct_named_il(blk[p.x].ptr(), l, std::make_index_sequence<6>());
+                        break;
+                    case 7:
+                        ok = construct_named_il(blk[p.x].ptr(), l, std::make_index_sequence<7>());
+                        break;
+                    case 8:
+                        ok = construct_named_il(blk[p.x].ptr(), l, std::make_index_sequence<8>());
+                        break;
+                    }
+                    blk[p.x].constructed = true;
+                    mx = clip(l);
+                    if (!ok)
+                        return true;
                     break;
                 }
                 return false;
@@ -1079,6 +1158,18 @@ namespace c14
                     bad(op, "contents", mc::fmt("%s=\"%.*s\", reference \"%s\"", nm, (int)r.size(), c, r.c_str()));
                 if (!blk[i].canaries_ok())
                     bad(op, "write_outside_object", mc::fmt("c_str() of %s overwrote the guard bytes", nm));
+            }
+            // the results of c_str() of two strings of the same capacity, used at the same time
+            {
+                const Str &ca = *blk[0], &cb = *blk[1];
+                if (blk[0]->size() <= N && blk[1]->size() <= N && blk[0]->size() == ref[0].size() && blk[1]->size() == ref[1].size())
+                {
+                    const char *pa = ca.c_str(), *pb = cb.c_str();
+                    if (memcmp(pa, ref[0].data(), ref[0].size()) != 0 || pa[ref[0].size()] != 0 || memcmp(pb, ref[1].data(), ref[1].size()) != 0 || pb[ref[1].size()] != 0)
+                        bad(op, "c_str_shared_between_strings", mc::fmt("A.c_str() and B.c_str() taken together: A reads \"%s\" (reference \"%s\"), B reads \"%s\" (reference \"%s\")",
+                                                                       printable(string(pa, ref[0].size())).c_str(), printable(ref[0]).c_str(), printable(string(pb, ref[1].size())).c_str(),
+                                                                       printable(ref[1]).c_str()));
+                }
             }
             mc::outcome(ref[0] + "|" + ref[1]);
         }
